@@ -683,19 +683,32 @@ def gen_subquery_query(rnd):
     atom = ("cmp", op, sub, other) if rnd.random() < 0.35 else ("cmp", op, other, sub)
     def plain():
         v = rnd.choice(outer)
+        if rnd.random() < 0.35:
+            # the sub-query's variable is SHARED with the enclosing query: a plain conjunct binds it there
+            return ("cmp", rnd.choice(list(OPS)), ("attr", ("var", v), "a"), yt) if ykind == "int" or rnd.random() < 0.5 \
+                else ("cmp", rnd.choice(["eq", "ne"]), ("var", v), ("var", "y"))
         return rnd.choice([("cmp", rnd.choice(list(OPS)), ("attr", ("var", v), "a"), ("lit", rnd.randrange(1, 3))),
                            ("truth", ("attr", ("var", v), "f"))])
+    def atom2():
+        # a second sub-query over the same variable, with its own condition
+        c2 = None if rnd.random() < 0.2 else ("cmp", rnd.choice(list(OPS)), yt, ("lit", rnd.randrange(0, 3)))
+        v = rnd.choice(outer)
+        o2 = ("attr", ("var", v), "a") if ykind == "int" else ("var", v)
+        op2 = rnd.choice(list(OPS)) if ykind == "int" else rnd.choice(["eq", "ne"])
+        return ("cmp", op2, o2, ("subq", "y", c2)) if rnd.random() < 0.6 else ("cmp", op2, ("subq", "y", c2), o2)
     r = rnd.random()
-    if r < 0.35:
+    if r < 0.3:
         cond = atom
-    elif r < 0.55:
+    elif r < 0.5:
         cond = ("and", plain(), atom)
-    elif r < 0.7:
+    elif r < 0.62:
         cond = ("and", atom, plain())
-    elif r < 0.85:
+    elif r < 0.74:
         cond = ("not", atom)
-    else:
+    elif r < 0.86:
         cond = ("and", plain(), ("not", atom))
+    else:
+        cond = ("and", atom, atom2())
     selv = rnd.sample(outer + ["y"], rnd.randrange(1, len(outer) + 2))
     used = set(c_allvars(cond)) | set(selv)
     return {"sel": [("var", v) for v in selv], "cond": cond, "objs": objs,
